@@ -195,6 +195,19 @@ func (ex *Exec) checkAsserts(fr *Frame, st *State, key string, names []string, p
 						env.vars[p.Name()] = TV{ex.topFrame.args[i], p.Type()}
 					}
 				}
+				// ... and so do its locals (a refusal moved into a helper is still justified in terms of the counters
+				// of the function under proof): the frame of THIS path, found through the chain of inlining callers
+				top := fr
+				for top.caller != nil {
+					top = top.caller
+				}
+				if top != fr && top.fn == ex.topFrame.fn {
+					for n, v := range ex.localEnv(top, st).vars {
+						if _, dup := env.vars[n]; !dup {
+							env.vars[n] = v
+						}
+					}
+				}
 			}
 			for i, n := range names {
 				if i < len(args) {
@@ -417,7 +430,7 @@ func (ex *Exec) callStaticBind(fr *Frame, st *State, fn *ssa.Function, args []Va
 		ex.inlined[shortKey(key)] = true
 		ex.inlineCount[shortKey(key)]++
 		st.Tracef("%s: inline %s", ex.pos(pos), shortKey(key))
-		nfr := &Frame{fn: fn, env: map[ssa.Value]Val{}, loopCut: map[*ssa.BasicBlock]bool{}, args: args, depth: fr.depth + 1,
+		nfr := &Frame{fn: fn, env: map[ssa.Value]Val{}, loopCut: map[*ssa.BasicBlock]bool{}, args: args, depth: fr.depth + 1, caller: fr,
 			stack: append(append([]*ssa.Function(nil), fr.stack...), fn)}
 		nfr.inLoopCtx = fr.inLoopCtx || (fr.curBlock != nil && ex.blockInLoop(fr.fn, fr.curBlock))
 		for i, p := range fn.Params {
@@ -581,7 +594,7 @@ func (ex *Exec) applyContractNamed(fr *Frame, st *State, c *Contract, names []st
 				cargs = append(cargs, ex.freshVal(st2, p.Type(), "cb_"+p.Name()))
 			}
 			st2.Tracef("%s: callback %s may be invoked by %s", ex.pos(pos), fv.Fn.Name(), shortKey(key))
-			nfr := &Frame{fn: fv.Fn, env: map[ssa.Value]Val{}, loopCut: map[*ssa.BasicBlock]bool{}, args: cargs, depth: fr.depth + 1,
+			nfr := &Frame{fn: fv.Fn, env: map[ssa.Value]Val{}, loopCut: map[*ssa.BasicBlock]bool{}, args: cargs, depth: fr.depth + 1, caller: fr,
 				stack: append(append([]*ssa.Function(nil), fr.stack...), fv.Fn)}
 			for i, p := range fv.Fn.Params {
 				nfr.env[p] = cargs[i]
@@ -595,7 +608,7 @@ func (ex *Exec) applyContractNamed(fr *Frame, st *State, c *Contract, names []st
 					if o.Panic || len(outs) > 16 {
 						continue
 					}
-					nfr2 := &Frame{fn: fv.Fn, env: map[ssa.Value]Val{}, loopCut: map[*ssa.BasicBlock]bool{}, args: cargs, depth: fr.depth + 1,
+					nfr2 := &Frame{fn: fv.Fn, env: map[ssa.Value]Val{}, loopCut: map[*ssa.BasicBlock]bool{}, args: cargs, depth: fr.depth + 1, caller: fr,
 						stack: append(append([]*ssa.Function(nil), fr.stack...), fv.Fn)}
 					for i, p := range fv.Fn.Params {
 						nfr2.env[p] = cargs[i]
@@ -775,7 +788,18 @@ func (ex *Exec) applyContractNamed(fr *Frame, st *State, c *Contract, names []st
 	}
 	for _, cl := range c.Clauses {
 		if cl.Kind == "ensures" && tagActive(cl.Tags, ex.prop) {
-			st.Assume(ex.evalBool(cl.E, env2))
+			skipped := false
+			env2.skip = &skipped
+			ex.curSkip = &skipped
+			g := ex.evalBool(cl.E, env2)
+			env2.skip = nil
+			ex.curSkip = nil
+			if skipped {
+				// not evaluable here (dynamic type of an interface value unknown at this call): left out
+				ex.usedExtern["clause of "+shortKey(key)+" not used at a call site where the dynamic type is unknown: "+cl.Text] = true
+				continue
+			}
+			st.Assume(g)
 			if cl.Assumed {
 				ex.usedExtern["trusted clause about "+shortKey(key)+": "+cl.Text] = true
 			}
